@@ -854,6 +854,12 @@ def specs(draw, fl: Flags | None = None):
             i, j = concretes.index(tf), concretes.index(td)
             concretes[i], concretes[j] = concretes[j], concretes[i]
         new_conc(draw(st.sampled_from(abs_names)), [["f0", ["ref", "T0"]]])
+        if _has_lists(fl) and fl.lists and draw(st.booleans()):
+            # ... and a size-refined list whose elements can never be built (the production holding it
+            # can then never be completed either: creation has to back out of it)
+            lo = draw(st.integers(1, 2))
+            kind = "LSBWLO" if draw(st.booleans()) or not fl.listops else "ListSizeBetween"
+            new_conc(draw(st.sampled_from(abs_names)), [["f0", ["ann", ["list", ["ref", tf["name"]]], [kind, lo, lo + draw(st.integers(0, 1))]]]])
     if fl.memo_fields:
         for c in concretes:
             if c.get("style") != "plain" and draw(st.integers(0, 5)) == 0:
